@@ -48,6 +48,15 @@ CHECKS = {
              'record next to a suspended cursor. Every step and, after every event, the whole store are compared with a snapshot model; the update '
              'idioms must terminate within a stated number of executed lines (deterministic liveness verdict).',
         note='A goal starts at its first next(); ground facts only. Trusts the snapshot model (about 100 lines). Liveness bound 20000 lines against < 1500 needed.'),
+    'C15': dict(
+        category='exploration', design_ref='DESIGN.md section 4, C15',
+        technique='deterministic simulation: seeded binding-order histories on a binding-stack machine; values saved by get_value are re-read after every later pop/close/advance and compared with a substitution-stack model; compiled programs through the collect idiom, findall and assert',
+        text='Seeded histories bind a variable and the variables inside its value in every order (outer first, inner first, through chains), save '
+             'get_value results at arbitrary points and re-read every ground saved value after each later event (pop by close/drop/resume, final '
+             'unwinding): it must contain no Variable object and denote the same term. to_python of every pool variable is compared with the model at '
+             'every event. 30% of the runs also compile a program whose body builds one term by a seeded permutation of unifications and consume it '
+             'through the documented collect idiom, findall/3 and assertz.',
+        note='Non-ground saved values are checked at save time only; to_python is compared only where it is documented (proper lists). Trusts the substitution model and the to_python mapping in ypsim.terms.'),
     'C18': dict(
         category='exploration', design_ref='DESIGN.md section 4, C18',
         technique='deterministic simulation of the environment: pool of fresh interpreters with seeded PYTHONHASHSEED, fake clock/pid and seeded compile histories; byte comparison',
@@ -70,7 +79,7 @@ NOT_APPLICABLE = [
 ]
 
 PENDING = {p: 'claimed in DESIGN.md; its check is not built yet at this commit (work in progress), so nothing is claimed for it here' for p in
-           ['C04', 'C08', 'C15', 'C17', 'C20']}   # property id -> reason, for claimed-in-design properties whose check is not built yet
+           ['C04', 'C08', 'C17', 'C20']}   # property id -> reason, for claimed-in-design properties whose check is not built yet
 
 
 def main():
